@@ -303,3 +303,72 @@ func VH_C17_toggle() {
 	db2 := Open(root)
 	vhCheckReads("C17.toggle.after_close", db2, rows)
 }
+
+// VH_C17_refused: a refused Create (other extension, or other constraints) is
+// refused "without damage" also for the running process: whatever cache /
+// asynchronous-write settings the refused schema carried, the collection
+// keeps working under the settings it had — pending writes stay visible, new
+// writes are pending or on disk as before, deletes reach the pending store and
+// the cache, and after Close a fresh handle sees exactly the accepted writes.
+func VH_C17_refused() {
+	root := vTempDir()
+	db := Open(root)
+	LowercaseNames = false
+	mk := func(k int) Schema {
+		s := DefaultSchema
+		switch k {
+		case 1:
+			s.Cache = true
+		case 2:
+			s.Asynchrone(1000, time.Hour)
+		case 3:
+			s.Cache = true
+			s.Asynchrone(1000, time.Hour)
+		}
+		return s
+	}
+	first := vChoice("first", 4)
+	async := first >= 2
+	vAssert("C17.refused.create", db.Create(&vObj{}, mk(first)) == nil)
+	var rows []vhRow
+	o := vhNewObj()
+	vAssert("C17.refused.insert1", db.InsertOrUpdate(o) == nil)
+	rows = append(rows, vhRow{o.UUID(), *o})
+	_, err := db.GetByUUID(&vObj{}, o.UUID()) // warm the cache
+	vAssert("C17.refused.get1", err == nil)
+	bad := mk(vChoice("second", 4))
+	if vChoice("why", 2) == 0 {
+		bad.Extension = ".bin"
+		vAssert("C17.refused.extension", errors.Is(db.Create(&vObj{}, bad), ErrExtensionMismatch))
+	} else {
+		fds := FieldDescriptors(&vObj{})
+		vAssert("C17.refused.setup", fds.Constraint("S", Constraints{Index: true, Unique: true}) == nil)
+		cs := NewCustomSchema(fds, DefaultExtension)
+		cs.Cache, cs.AsyncWrites = bad.Cache, bad.AsyncWrites
+		vAssert("C17.refused.constraints", errors.Is(db.Create(&vObj{}, cs), ErrFieldDescModif))
+	}
+	// the collection still runs under its own settings
+	vhCheckReads("C17.refused.visible", db, rows)
+	n := vhNewObj()
+	vAssert("C17.refused.insert2", db.InsertOrUpdate(n) == nil)
+	rows = append(rows, vhRow{n.UUID(), *n})
+	vAssert("C17.refused.same_write_mode", vFileExists(vhObjPath(root, n.UUID())) == !async)
+	switch vChoice("then", 3) {
+	case 0: // update the first object
+		u := &vObj{A: vInt64("A2"), S: "s", U: 9}
+		u.Initialize(o.UUID())
+		vAssert("C17.refused.update", db.InsertOrUpdate(u) == nil)
+		rows[0].o = *u
+	case 1: // delete it
+		d := &vObj{}
+		d.Initialize(o.UUID())
+		vAssert("C17.refused.delete", db.Delete(d) == nil)
+		rows = rows[1:]
+	case 2:
+	}
+	vhCheckReads("C17.refused.after", db, rows)
+	vAssert("C17.refused.close", db.Close() == nil)
+	db2 := Open(root)
+	vhCheckReads("C17.refused.reopen", db2, rows)
+	vAssert("C17.refused.control", db2.Control() == nil)
+}
